@@ -74,7 +74,8 @@ def workloads(sid):
                          'get 0 size %s 0' % hx('sec=a|xl'), 'getsec 0 %s' % hx("uniq='t'"), 'gettsec 0 %s %s' % (hx('sec'), hx('b')), 'getopt 0 %s' % hx("sec='bad"),
                          'set_validate_func 0 %s 1' % hx('one|deep|d'), 'set_validate_func2 0 %s 1' % hx('one|zs'), 'set_print_func 0 %s 1' % hx('sec=a|x')]
     W['print'] = init + ['parse_buf 0 %s' % hx(TEXT1), 'setcomment 0 %s %s' % (hx('i'), hx('note')), 'setstr 0 %s %s' % (hx('s'), hx('long "value" ' * 40)),
-                         'setstr 0 %s %s 0' % (hx('sl'), hx('x\\y$z' * 60)), 'setcomment 0 %s %s' % (hx('f'), hx('a long annotation ' * 30)), '@OOM', 'print 0', 'print_indent 0 2', 'opt_print %s' % optloc('sl'), 'init 1 %d %d' % (sid, F_COMMENTS),
+                         'setstr 0 %s %s 0' % (hx('sl'), hx('x\\y$z' * 60)), 'setcomment 0 %s %s' % (hx('f'), hx('a long annotation ' * 30)), 'setcomment 0 %s %s' % (hx('b'), hx('two lines and\nan early end */ of comment')),
+                         'setcomment 0 %s %s' % (hx('il'), hx('one line */ with an end marker')), '@OOM', 'print 0', 'print_indent 0 2', 'opt_print %s' % optloc('sl'), 'init 1 %d %d' % (sid, F_COMMENTS),
                          'print_parse 0 1']
     # a plain section opened from one file and again from another (its source name changes)
     W['reopen-other-file'] = init + ['parse_file 0 %s' % hx('sec1.conf'), '@OOM', 'parse_file 0 %s' % hx('sec2.conf'), 'parse_buf 0 %s' % hx('one { deep { d = {y} } }\n'),
